@@ -142,16 +142,22 @@ let () = iter_lines (fun line ->
     let res = Vp8lInPlace.apply_inverse_pingpong tl coded sa sb in
     let take n l = Stdlib.List.filteri (fun i _ -> i < n) l in
     Printf.printf "I %s S %s\n" (show_u32s (take (wi * hi) res)) (show_u32s (Vp8lSpec.apply_inverse tl coded))
-  | "huf" :: bits :: lens ->
+  | "huf" :: root :: bits :: lens ->
+    (* I: the table model (BuildHuffmanTable + ReadSymbol); S: the canonical code tree *)
     let lz = Stdlib.List.map z_of_string lens in
     let b = int_of_string bits in
+    let rt = z_of_string root in
     let bl = Stdlib.List.init 32 (fun k -> (b lsr k) land 1 = 1) in
-    let r = match Vp8lPrefix.tree_of_lens lz with
+    let s = match Vp8lPrefix.tree_of_lens lz with
       | Res.Ok t -> (match Vp8lPrefix.read_symbol t bl with
           | Res.Ok (sym, rest) -> Printf.sprintf "%d %d" (int_of_z sym) (32 - Stdlib.List.length rest)
           | _ -> "ERR")
       | _ -> "ERR" in
-    Printf.printf "I %s S %s\n" r r
+    let i = match Vp8lLut.lut_build rt lz with
+      | Res.Ok tab -> let (v, n) = Vp8lLut.lut_read rt tab (z_of_int b) in
+        Printf.sprintf "%d %d" (int_of_z v) (int_of_z n)
+      | _ -> "ERR" in
+    Printf.printf "I %s S %s\n" i s
   | ["p2d"; w; code] ->
     let r = string_of_z (Vp8lSpec.plane_to_dist (z_of_string w) (z_of_string code)) in
     Printf.printf "I %s S %s\n" r r
